@@ -149,11 +149,32 @@ type Senc struct {
 	C EncV
 }
 
+// Wide: one field of each struct type of the zoo (many distinct field types).
+type Wide struct {
+	A Inner
+	B SnilA
+	C SnilU
+	D SnilS
+	E Stail
+	F Sptr
+	G Snest
+	H Sbool
+	I EthTx
+	J RList
+	K RTree
+	L RA
+	M RArr
+	N Sa1
+	O Sif
+	P Senc
+}
+
 // noByValue: types whose values cannot be encoded unless addressable (documented:
 // "unadressable value ..., EncodeRLP is pointer method").
-var noByValue = map[string]bool{"encp": true, "Senc": true}
+var noByValue = map[string]bool{"encp": true, "Senc": true, "Wide": true}
 
 var catalogue = map[string]reflect.Type{
+	"Wide":  reflect.TypeOf(Wide{}),
 	"RList": reflect.TypeOf(RList{}),
 	"RTree": reflect.TypeOf(RTree{}),
 	"RA":    reflect.TypeOf(RA{}),
